@@ -71,6 +71,18 @@ CLAIMED["C16"] = dict(
    note="Gaussian and fermionic simulators are not yet covered by the direct replay.",
    technique="TLC theorems (product construction) on the exact spec + direct relabelling / commutation replay",
    engine="PqOptics")
+CLAIMED["C07"] = dict(
+   category="model_checking", design_ref="§3 C07",
+   text="PqGaussian.tla defines every linear gate by its documented ladder-operator blocks (P, A) on the exact lattice (fractions over Z[sqrt2, i]) and evolves (mu, Gam) by the congruence S Gam S^dagger. TLC checks by ASSUME that every catalogue gate on every ordered mode tuple satisfies S K S^dagger = K (passive gates unitary) and the documented identities (Fourier = PS(pi/2), 50:50 beamsplitter, three Mach-Zehnder instances, the two-mode-squeezing decomposition for four phases), and Hermiticity + commutation relations on every reachable state. Replay: the code's _get_passive_block / _get_active_block equal the spec blocks for every gate and hbar in {1/2, 2, 8}; after every gate of every sequence (depth 2-3, d = 2, 3) _m, _C, _G and the xxpp / xpxp mean and covariance equal the exact congruence (displacement shift sqrt(2 hbar) alpha included).",
+   note="'For all real parameters' is established on the lattice only: the tlapm certificate identities of DESIGN 2 are not built.",
+   technique="exact TLA+ Gaussian semantics (documented blocks) + TLC ASSUME theorems; behaviours replayed on GaussianSimulator for three hbar",
+   engine="PqGaussian")
+CLAIMED["C14"] = dict(
+   category="model_checking", design_ref="§3 C14",
+   text="PqGaussian.tla derives the quadrature representations from exact ladder moments with an explicit hbar and exports them for hbar in {1/2, 2, 8}. Replay on lattice states: complex / xxpp / xpxp representations and per-mode mean photon numbers against exact values; setter o getter round trips through both orderings; reduced() on every ordered mode subset and rotated() on lattice angles against the spec's sub-blocks and phase rules; Fock probabilities, purity, fidelity, threshold probabilities, density matrix and mean photon number equal across hbar.",
+   note="Mixed states through thermal preparations are not in the spec yet; dimensionless observables other than the mean photon number are compared across hbar, not against closed forms.",
+   technique="exact TLA+ representation maps with explicit hbar + TLC; replay of getters / setters / reduced / rotated on GaussianState",
+   engine="PqGaussian")
 NOT_APPLICABLE_REASON = {}
 def main():
     checks = []
